@@ -150,7 +150,7 @@ func (e *Exec) envForLoop(fr *Frame, h *ssa.BasicBlock, st *State) *Env {
 }
 
 // frameObligations: every location allocated at entry and not listed in 'modifies' keeps its value.
-func (e *Exec) frameObligations(fr *Frame, exit *State, exitGuard string, envEntry *Env) {
+func (e *Exec) frameObligations(fr *Frame, exit *State, exitGuard string, envEntry *Env, suffix string) {
 	ctr := fr.ctr
 	type allowed struct {
 		whole bool
@@ -222,6 +222,9 @@ func (e *Exec) frameObligations(fr *Frame, exit *State, exitGuard string, envEnt
 			r := e.Out.Fresh("frame$r", SInt)
 			conds := []string{"(<= " + r + " " + top0 + ")"}
 			_, _, twoLevel := arrayParts(vs)
+			if strings.HasPrefix(name, "M$") {
+				conds = append(conds, "(> "+r+" 0)") // the nil map has no observable row
+			}
 			if twoLevel && (strings.HasPrefix(name, "E$") || strings.HasPrefix(name, "M$")) {
 				k2s, _, _ := arrayParts(vs)
 				i := e.Out.Fresh("frame$i", k2s)
@@ -234,7 +237,17 @@ func (e *Exec) frameObligations(fr *Frame, exit *State, exitGuard string, envEnt
 						}
 					}
 				}
-				formula = Imp(And(conds...), Eq(Sel(Sel(exit.H[name], r), i), Sel(Sel(entryV, r), i)))
+				eq := Eq(Sel(Sel(exit.H[name], r), i), Sel(Sel(entryV, r), i))
+				if strings.HasPrefix(name, "M$") && strings.HasSuffix(name, "$val") {
+					// map values are only observable for present keys (every read is guarded by the domain)
+					domName := strings.TrimSuffix(name, "$val") + "$dom"
+					if dv, ok := exit.H[domName]; ok {
+						eq = Imp(Sel(Sel(dv, r), i), eq)
+					} else if ds, ok := e.heapSorts[domName]; ok {
+						eq = Imp(Sel(Sel(e.get(e.entry, domName, ds), r), i), eq)
+					}
+				}
+				formula = Imp(And(conds...), eq)
 			} else {
 				if a != nil {
 					for _, l := range a.refs {
@@ -244,7 +257,7 @@ func (e *Exec) frameObligations(fr *Frame, exit *State, exitGuard string, envEnt
 				formula = Imp(And(conds...), Eq(Sel(exit.H[name], r), Sel(entryV, r)))
 			}
 		}
-		e.Out.AddObl(&Obligation{Name: fmt.Sprintf("%s/frame:%s", FuncKey(fr.fn), name), Func: FuncKey(fr.fn), Kind: "frame", Label: name,
+		e.Out.AddObl(&Obligation{Name: fmt.Sprintf("%s/frame:%s%s", FuncKey(fr.fn), name, suffix), Func: FuncKey(fr.fn), Kind: "frame", Label: name,
 			Text: "locations of " + name + " allocated at entry and not listed in 'modifies' are unchanged", Src: ctr.Src, Formula: Imp(exitGuard, formula), Inputs: e.inputTerms(fr)})
 	}
 }
